@@ -180,7 +180,7 @@ CLAIMED = {
         "without repetition; the exchange loop makes at most one inner call per batch, on that batch's own server's client, with exactly "
         "that batch and the caller's arguments, and merges one answer per batch.",
    note="Quantified invariants give no counter-models: an undecided multi-key VC is decided by a bounded replay on the real HashClient "
-        "(1..5 servers incl. UNIX, prefixes, pooling, key sets 0..50 with pairs; per-server logs). NOT COVERED: delete_many's thin loop; "
+        "(1..5 servers incl. UNIX, prefixes, pooling, key sets 0..50 with pairs; per-server logs). delete_many: one single-key delete per key through the same route, with the caller's arguments. NOT COVERED: "
         "set_many pairs sharing a stripped key; 'union of per-server answers = per-key gets' uses C11 as a lemma. Trusted: C11/C13 "
         "contracts, A-defaultdict, client table keyed by node name.",
    technique="contract-based deductive verification: routing VCs over callee contracts, group-by loop invariants over ghost arrays (z3/cvc5)",
